@@ -21,9 +21,9 @@ PID = "C13"
 META = {
     "ready": True,
     "category": "proof",
-    "technique": "Lean 4 model of steel's syntax-rules machinery (pattern compilation, match_list_pattern, collect_bindings, definition-time ## renaming, ReplaceExpressions, Expander) + R7RS/Kohlbecker specification; theorems about matching/instantiation and the guarded hygiene statement; differential runs real SteelMacro / real Engine vs model vs specification",
-    "level_text": "Proved for all patterns / forms / programs (SteelVerif/C13/Props.lean, induction, no bounds): match_exact (for well-formed pattern lists — one ellipsis per list, distinct variables, any nesting / ellipsis depth, dotted tails — matching a user form and re-instantiating the pattern as a template with steel's instantiator gives the form back and binds every variable; including an ellipsis followed by a dotted tail since fix 2a1b125d; guards: no nested pattern list of the exact form (p ... . r), the form contains no identifier spelled like a mangled pattern variable; both guards shown necessary by witnesses), match_complete (after a successful match collect_bindings never fails), match_literal, expand_fuel_mono, and not_hygiene: the full hygiene statement is false for the mechanism, with one witness per violated conjunct (K13a, K13b, K13c, K13d) by kernel evaluation. NOT proved: hygiene_partial (G prog -> M expansion alpha-equivalent to the ideal expansion); the statement is kept as HygienePartial. Inside G, and for modules / macro-defining macros, hygiene rests on the differential run: real SteelMacro vs model (exact expansion text) and vs R7RS specification on generated pattern/form pairs, real Engine vs model vs specification (values that reveal which binding each identifier resolved to) on generated programs.",
-    "level_note": "Trusted: Lean kernel, harness/driver/comparison, hand-written model (tied to /repo by the unit- and program-level correspondence on every run). Modules, kernel (defmacro) macros, vectors/strings/quote patterns, named let, set! and syntax-case are not modelled.",
+    "technique": "Lean 4 model of steel's syntax-rules machinery (pattern compilation, match_list_pattern, collect_bindings, definition-time ## renaming, ReplaceExpressions, Expander) + R7RS/Kohlbecker specification; theorems about matching/instantiation, positive binder-hygiene and referential-transparency theorems by induction over the model's own functions, the guarded hygiene statement with decided negation witnesses; differential runs real SteelMacro / real Engine vs model vs specification, with the guard G evaluated by the driver on every program",
+    "level_text": "Proved for all patterns / forms / programs (SteelVerif/C13/Props.lean, induction, no bounds): match_exact, match_complete, match_literal, expand_fuel_mono (as before). NEW, positive hygiene: introduced_binders_fresh (every binder position of a stored template - define/lambda parameters, let and named-let binders - is spelled ##..., hence distinct from every identifier of a macro use whose identifiers do not begin with ##); reader_rejects_double_hash (C12 lexer model: a token beginning with ## is a lexical error, so source identifiers satisfy that hypothesis; the real reader is run on a generated ## stream on every run); expansion_names (one expansion step = collect_bindings + IntroducedByMacro + replace_identifiers, any ellipsis depth: every identifier of the expansion is an identifier of the use's arguments, a non-binder atom of the stored template, or ##-prefixed; also evaluated on the REAL expansion of every unit case); hygiene_user_binders / hygiene_user_binders_src (the same invariant for whole programs as the reader produces them: nested uses, recursive macros, expansion to fixed point, any fuel, NO guard - every identifier of the expanded program not beginning with ## is an identifier the user wrote or a non-binder atom of a stored template, and all binders of all stored templates carry ##); user_forms_not_captured and user_form_meaning_unchanged (the resolution of a user identifier, and the whole canonical form - binders renamed to nesting level, references resolved as steel does after expansion - of a user sub-form are independent of the ##-binders in scope: template binders never capture user identifiers); template_free_ids_resolve_globally (under G.a a free identifier of the template is instantiated unchanged, still flagged unresolved, and resolves to the definition-site global in every environment whose binders of that spelling are plain use-site binders with the flag not lost); G_iff (G = conjunction of the six negated class predicates K13a,b,c,d,f,g); not_hygiene_a..d: the full statement is false, one decided witness per violated conjunct. STILL NOT proved: hygiene_partial (G prog -> M expansion alpha-equivalent to the ideal expansion S; statement kept as HygienePartial): missing are the agreement of M's matcher/instantiator with the R7RS one on arbitrary templates, the simulation between ##-names of several template instances and S's per-step stamps under G.b, and the scoping argument under G.d. Inside G the full statement rests on the differential run: real SteelMacro vs model (exact expansion text) and vs R7RS specification on generated pattern/form pairs, real Engine vs model vs specification (values that reveal which binding each identifier resolved to) on generated programs; any real != S inside G is a VIOLATION.",
+    "level_note": "Trusted: Lean kernel, harness/driver/comparison, hand-written model (tied to /repo by the unit- and program-level correspondence on every run). The guard that decides is the Lean one (classify, printed by the driver per program); the python mirror is a static over-approximation, checked to contain the driver's class on every program, and is never used to excuse a disagreement. Modules, kernel (defmacro) macros, vectors/strings/quote patterns, set! and syntax-case are not modelled; canonRef (resolution after expansion, incl. the lost `unresolved` flag of the spelling `list`) is a model of compiler/passes/shadow.rs observed on the engine, not translated from it.",
 }
 
 FINDING_CLASSES = {
@@ -692,6 +692,9 @@ class Stats:
         self.samples = []
         self.mirror_disagree = []
         self.inside_G = 0
+        self.inside_G_ne_S = 0
+        self.names_checked = 0
+        self.hash_prefix = {"programs": 0, "rejected": 0}
 
 
 def decide(ctx, st, kind, text, real, drv, known, label):
@@ -714,8 +717,17 @@ def decide(ctx, st, kind, text, real, drv, known, label):
         eq_rs = eq_rm and alpha in ("true", "err-both")
         if not eq_rm and r.startswith("ok") and stx.startswith("ok"):
             eq_rs = False
+    if kind == "unit":
+        bad = names_property(text, real)
+        st.names_checked += 1 if real.strip().startswith("ok") else 0
+        if bad and len(ctx.violations) < 25:
+            ctx.violation("C13-names-%s-%d.txt" % (label, len(ctx.violations)),
+                          "# the REAL expansion contains an identifier that is neither an identifier of the use, nor written in the macro definition, nor ##-prefixed (theorem expansion_names)\nunit %s\n# real = %s\n# offending = %s\n"
+                          % (text, real, " ".join(bad)))
     if not cls:
         st.inside_G += 1
+        if not (eq_rs):
+            st.inside_G_ne_S += 1
     key = (kind, d.get("valS", d.get("S", "")), tuple(cls))
     st.seen.add(key)
     for c in cls or ["G"]:
@@ -749,6 +761,48 @@ def decide(ctx, st, kind, text, real, drv, known, label):
     ctx.violation("C13-%s-%d.txt" % (label, n),
                   "# real engine / real SteelMacro disagrees with the specification S\n%s %s\n# real   = %s\n# driver = %s\n# class  = %s (inside G: any disagreement is a violation; outside G only when real != M or the class is not an open finding)\n"
                   % (kind, text, real, drv, ",".join(cls) or "G"))
+
+
+CORE_ALIASES = {"#%plain-lambda", "λ", "fn", "#%plain-let"}
+
+
+def names_property(text, real):
+    """`expansion_names` evaluated on the REAL expansion of a unit case: every identifier of the expansion is
+    an identifier of the use form, an identifier written in the macro definition, or begins with `##`.
+    Returns the offending identifiers (empty = holds)."""
+    if not real.strip().startswith("ok"):
+        return []
+    try:
+        definition, form = text.split("\t", 1)
+        allowed = {x for t in read_all(definition) + read_all(form) for x in atoms(t)}
+        out = [x for t in read_all(real.strip()[2:]) for x in atoms(t)]
+    except Exception:
+        return []
+    return sorted({x for x in out if is_id(x) and not x.startswith("##") and x not in allowed and x not in CORE_ALIASES})
+
+
+def hash_prefix_programs(rng, n):
+    """Programs that contain an identifier beginning with the mangling prefix `##` in every syntactic role
+    (the hypothesis `noHashList` of the hygiene theorems = the reader never produces such an identifier)."""
+    roles = [
+        "(define %s 1) %s",
+        "(define (f %s) 2) (f 1)",
+        "(define (%s y) y) 3",
+        "(let ((%s 4)) 5)",
+        "((lambda (%s) 6) 7)",
+        "(define-syntax m (syntax-rules () [(_ a) (let ((%s a)) 8)])) (m 9)",
+        "(define-syntax m (syntax-rules () [(_ %s) 10])) (m 11)",
+        "(define-syntax m (syntax-rules () [(_ a) a])) (define tmp 12) (m %s)",
+        "(quote %s)",
+        "(list 13 '%s)",
+    ]
+    out = []
+    for _ in range(n):
+        base = rng.choice(["tmp", "x", "a", "list", "t", "%d" % rng.randint(0, 99), "##" + rng.choice(["x", "tmp"]), ""])
+        ident = "##" + base
+        role = rng.choice(roles)
+        out.append(role.replace("%s", ident))
+    return out
 
 
 def harness_bin():
@@ -903,6 +957,21 @@ def run(ctx):
             ctx.violation("C13-module-%s.txt" % label,
                           "# macro imported from a generated module (chain C -> B -> user): real engine != specification\nmodprog %s\n# flattened for S: %s\n# real = %s\n# S = %s\n# class = %s\n" % (m, f, r, dd.get("valS", ""), cls or "G"))
 
+    # hypothesis of the hygiene theorems: the reader never produces an identifier beginning with `##`
+    hp = hash_prefix_programs(rng, 60 if ctx.quick() else 600)
+    hrc, hout, herr = C.run_bin([harness_bin(), "prog"], "\n".join(hp) + "\n", timeout=300)
+    hl = hout.splitlines()
+    if len(hl) != len(hp):
+        ctx.violation("C13-hashprefix-crash.txt", "## stream: harness rc=%d lines=%d expected %d\n%s\n" % (hrc, len(hl), len(hp), herr[-1500:]), no_input=True)
+    else:
+        for t, r in zip(hp, hl):
+            st.hash_prefix["programs"] += 1
+            if norm_val(r) == "err":
+                st.hash_prefix["rejected"] += 1
+            elif len(ctx.violations) < 25:
+                ctx.violation("C13-hashprefix-%d.txt" % len(ctx.violations),
+                              "# the real reader/engine accepted (or crashed on) a program with an identifier that begins with the mangling prefix ##: the hypothesis noHashList of introduced_binders_fresh / user_forms_not_captured does not hold for source text\nprog %s\n# real = %s\n" % (t, r))
+
     quick = ctx.quick()
     nprog = 400 if quick else 20000
     nunit = 3000 if quick else 60000
@@ -935,7 +1004,8 @@ def run(ctx):
         "evaluations": st.programs + st.units, "programs": st.programs, "unit_pairs": st.units,
         "distinct_nontrivial": len(st.seen),
         "rule": "programs: 1-%d macros drawn from 12 shapes (or2-like let binder, lambda binder, free-identifier wrapper, recursive, nested user of another macro, my-let + user, literal, literal passing, ellipsis depth 2/3, dotted, ellipsis+dotted) with spellings from small pools so that collisions occur; 1-3 uses at top level / under let / lambda / define parameters that do or do not shadow template binders, template free identifiers and literals; every binder bound to a distinct tag; distinct = distinct (S result, class). unit: random patterns (literals, nested, one ellipsis per list, dotted tails, depth <= %d) with a revealing template, instances of the pattern and mutated instances" % (g.max_macros, g.max_depth),
-        "samples": st.samples, "real_eq_S": st.real_eq_S, "real_ne_S": st.real_ne_S, "inside_G": st.inside_G,
+        "samples": st.samples, "real_eq_S": st.real_eq_S, "real_ne_S": st.real_ne_S, "inside_G": st.inside_G, "inside_G_real_ne_S": st.inside_G_ne_S,
+        "expansion_names_checked_on_real": st.names_checked, "hash_prefix_stream": st.hash_prefix,
         "real_ne_M": len(st.real_ne_M), "by_class": st.by_class, "known_finding_hits": st.known_hits,
         "violations_not_written": getattr(st, "more_violations", 0),
         "module_cases": mod_results, "mirror_disagreements": len(st.mirror_disagree),
